@@ -84,7 +84,7 @@ func (zc *Coordinator) Start() error {
 	// NOTE - samuel/go-zookeeper does not support chroot, so we pass along the configured root path in config
 	zkConn, connEventChan, err := zc.connectFunc(zc.servers, viper.GetDuration("zookeeper.timeout")*time.Second, zc.Log)
 	if err != nil {
-		zc.Log.Panic("Failure to start zookeeper", zap.String("error", err.Error()))
+		zc.Log.Error("Failure to start zookeeper", zap.String("error", err.Error()))
 		return err
 	}
 	zc.App.Zookeeper = zkConn
